@@ -467,6 +467,40 @@ def model_to_dict(m):
 # obligations and paths
 
 
+_LINEAR_CACHE = {}
+
+
+def is_linear(e):
+    k = e.get_id()
+    v = _LINEAR_CACHE.get(k)
+    if v is not None:
+        return v
+    ok = True
+    todo, seen = [e], set()
+    while todo and ok:
+        x = todo.pop()
+        i = x.get_id()
+        if i in seen:
+            continue
+        seen.add(i)
+        if z3.is_app(x):
+            kd = x.decl().kind()
+            ch = x.children()
+            if kd == z3.Z3_OP_MUL:
+                if sum(1 for c in ch if not (z3.is_rational_value(c) or z3.is_int_value(c))) > 1:
+                    ok = False
+            elif kd in (z3.Z3_OP_DIV, z3.Z3_OP_IDIV, z3.Z3_OP_MOD, z3.Z3_OP_REM):
+                if not (z3.is_rational_value(ch[1]) or z3.is_int_value(ch[1])):
+                    ok = False
+            elif kd == z3.Z3_OP_POWER:
+                ok = False
+            todo.extend(ch)
+    if len(_LINEAR_CACHE) > 200000:
+        _LINEAR_CACHE.clear()
+    _LINEAR_CACHE[k] = ok
+    return ok
+
+
 def _symbols(e, cache):
     k = e.get_id()
     if k in cache:
@@ -661,7 +695,11 @@ class Explorer:
         self.path.assumptions.append(b != 0)
 
     def feasible(self, extra):
-        r, _ = check_sat(self.path.hyps + list(extra), timeout_ms=self.branch_timeout_ms, use_cvc5=False)
+        """is the path condition plus `extra` satisfiable?  Decided on the LINEAR part of the hypotheses only (nonlinear
+        atoms are dropped: a sound over-approximation of feasibility -- an infeasible path that slips through only yields
+        obligations with contradictory hypotheses, which are vacuously discharged)."""
+        hyps = [h for h in self.path.hyps if is_linear(h)] + list(extra)
+        r, _ = check_sat(hyps, timeout_ms=self.branch_timeout_ms, use_cvc5=False)
         return r != "unsat"
 
     def concrete_int(self, t):
